@@ -1,6 +1,6 @@
 (* C08 -- Transmission discipline.  Statements only. *)
 From Coq Require Import ZArith List Bool Arith.
-From RV Require Import GenConsts M_Qos P_Qos.
+From RV Require Import GenConsts M_Qos P_Qos P_QosQueue.
 Import ListNotations.
 Open Scope Z_scope.
 
@@ -38,6 +38,25 @@ Theorem C08_tx_after_answer_refuted :
               | Some td, tw :: _ => td <? tw
               | _, _ => false end = true.
 Proof. exact tx_after_answer_reachable. Qed.
+
+(* priority, then first come first served: in EVERY reachable world (any events, tie policy, transport behaviour, number of steps, assertion
+   crashes included) the send buffer is in (priority, arrival stamp) order and no two entries share a stamp ... *)
+Theorem C08_queue_ordered : forall cmds plan lifo fuel evs, Qinv (fst (run cmds plan lifo fuel (world0 evs))).
+Proof. exact queue_ordered. Qed.
+
+(* ... and the command that starts next is the first entry whose caller has not gone: everything still waiting behind it has a worse
+   priority, or the same priority and a later arrival *)
+Theorem C08_next_is_least_pending : forall w k, Qinv w -> snd (dequeue w (que (cx w))) = Some k ->
+  exists pre p s rest, que (cx w) = pre ++ (p, s, k) :: rest /\
+    Forall (fun e => fut_done (fut_of w (snd e)) = true) pre /\ fut_done (fut_of w k) = false /\
+    Forall (qlt (p, s, k)) rest.
+Proof. exact next_is_least_pending. Qed.
+
+(* a computed run: a default-priority command arriving after a low-priority one overtakes it *)
+Theorem C08_priority_then_arrival_witness :
+  write_order (fst (fst (simulate cmd_p echo_later false 5000
+     [(0, ConnMade); (15625, Call 0%nat); (31250, Call 1%nat); (46875, Call 2%nat)]))) = [0%nat; 2%nat; 1%nat].
+Proof. exact priority_then_arrival. Qed.
 
 (* the caps are the ones the property states: 1 + min(max_retries, 3) transmissions, waits doubling up to 8x *)
 Theorem C08_caps_as_stated : MAX_RETRY = 3%nat /\ 2 ^ Z.of_nat MULT_CAP = 8.
